@@ -58,9 +58,9 @@ CHECKS = {
    note="Trusted: TLC; point evaluation of the library for the coincidence test. Pairs off the lattice are not decided; general (rotated / elliptical) arc-arc pairs may raise, as documented.",
    ref="4 (C11), 3.11"),
  'C12': dict(
-   technique="TLA+ exact crossing oracle (Crossings.tla: constructed transversal crossings, exact crossing counts by isolated sign changes) model-checked with TLC; every constructed crossing must be found, once, by intersect / Path.intersect",
-   text="For the constructed pairs of Crossings.tla (tangents >= 6 degrees apart, parameters strictly inside (0,1), unique crossing proved in the model) the crossing must be reported within 1e-4 of the true parameters exactly once, in both operand orders; pairs involving a Line must report exactly one pair; a long line against every lattice quadratic in general position must report exactly the model's number of crossings (0, 1 or 2); circle-lattice arc families with 1-2 known crossings; two path families whose crossings lie strictly inside segments; generic lattice Bezier pairs must not report a crossing twice.",
-   note="Trusted: TLC. Open findings (printed as KNOWN-FINDING): Bezier-Bezier crossings at dyadic parameters of both curves are lost; generic Bezier-Bezier crossings can be reported several times.",
+   technique="TLA+ exact crossing oracle (Crossings.tla: constructed transversal crossings, exact crossing counts by isolated sign changes) model-checked with TLC; every constructed crossing must be found, once, by intersect / Path.intersect; TLA+ state machine of the subdivision loop of bezier_intersections (Subdiv.tla) model-checked with TLC and compared visit by visit with the real loop (behaviour conformance)",
+   text="For the constructed pairs of Crossings.tla (tangents >= 6 degrees apart, parameters strictly inside (0,1), unique crossing proved in the model) the crossing must be reported within 1e-4 of the true parameters exactly once, in both operand orders; pairs involving a Line must report exactly one pair; a long line against every lattice quadratic in general position must report exactly the model's number of crossings (0, 1 or 2); circle-lattice arc families with 1-2 known crossings; two path families whose crossings lie strictly inside segments; generic lattice Bezier pairs must not report a crossing twice; the count family spelled with Beziers only (degree-elevated quadratic x straight quadratic, turned by 3+4j).  Subdiv.tla: the design variant satisfies NoLoss / Once / NoGhostParallel / Sound for all pairs of straight lattice segments, the transcription of the code violates NoLoss (the open findings at model level), and every behaviour of the transcription (pairs visited per level in order, reports, the maximum-iterations failure) equals the recorded behaviour of the real function on straight lattice quadratics (exact dyadic arithmetic).",
+   note="Trusted: TLC. Open findings (printed as KNOWN-FINDING): Bezier-Bezier crossings at dyadic parameters of both curves are lost; crossings of an axis-parallel straight Bezier are lost; generic Bezier-Bezier crossings can be reported several times.",
    ref="4 (C12), 3.11"),
  'C13': dict(
    technique="TLA+ lattice model of point-to-segment distance (RadialRange.tla: closed form for lines, exact witness distances for curves) model-checked with TLC; every (segment, query point) case replayed through radialrange / closest_point_in_path / farthest_point_in_path",
